@@ -813,12 +813,18 @@ class Exec(object):
                 self.store(st, base, self.arr_update(bv, i, v))
                 return
             p = self.addr_term(st, base)
-            self.frame_check_elem(st, etid, p, i)
+            if self.is_scalar(etid):
+                self.frame_check_elem(st, etid, p, i)
+            else:
+                self.frame_check_obj(st, self.elemaddr(p, i), etid)
             self.elem_store(st, etid, p, i, v)
             return
         if k == 'sel':
             _, sl, i, etid = a
-            self.frame_check_elem(st, etid, sl.arr, add(sl.off, i))
+            if self.is_scalar(etid):
+                self.frame_check_elem(st, etid, sl.arr, add(sl.off, i))
+            else:
+                self.frame_check_obj(st, self.elemaddr(sl.arr, add(sl.off, i)), etid)
             self.elem_store(st, etid, sl.arr, add(sl.off, i), v)
             return
         raise Unsupported('store %r' % (a,))
@@ -971,6 +977,10 @@ class Exec(object):
                 for hn, srt, two, via in self.leaf_heaps(r[1]):
                     self.heap_get(st, hn, srt)
                     by_heap.setdefault(hn, []).append(('objsleaf', r, two, via))
+            elif r[0] == 'map':
+                for name in list(st.heap):
+                    if name.startswith(('MAPV:', 'MAPH:')) or name == 'MAPN':
+                        by_heap.setdefault(name, []).append(r)
             elif r[0] == 'any':
                 anything = True
         if anything:
@@ -986,6 +996,10 @@ class Exec(object):
             new = c.fresh(tag + ':' + name, old.sort)
             st.heap[name] = new
             c.heap_bound[new.val] = st.alloc
+            if any(r[0] == 'map' for r in rs):
+                a = const('a!', INT)
+                c.assume(forall([a], implies(and_(*[ne(a, r[1]) for r in rs if r[0] == 'map']), eq(select(new, a), select(old, a))), [select(new, a)]))
+                continue
             if any(r[0] == 'objsleaf' for r in rs):
                 a = const('a!', INT)
                 member = []
